@@ -3,6 +3,7 @@ NEXT Next
 CONSTANTS
   MaxItems = 14
   MaxDepth = 3
+  GapSet <- LetGaps
   LitSet <- Lits
 INVARIANT EmitLarge
 CHECK_DEADLOCK FALSE
